@@ -21,7 +21,7 @@ EXTENDS Integers, Sequences, FiniteSets, TLC, Json, CSV
 
 CONSTANTS MaxSize,     \* Unbounded, or an integer (<= 0 disables the cache)
           Typed,       \* BOOLEAN
-          Pats,        \* which patterns of the table below are used (subset of 1..17)
+          Pats,        \* which patterns of the table below are used (subset of 1..18)
           Insts,       \* {0}: plain function; {1,2}: bound to instances 1 and 2 (methods)
           MaxOps,      \* bound on the history length
           AllowFail,   \* the wrapped function may raise
@@ -58,14 +58,15 @@ Patterns == <<
   Pat(<<I(2)>>, <<>>),                       \* 14  f(2)
   Pat(<<I(3)>>, <<>>),                       \* 15  f(3)
   Pat(<<>>, <<KW("a", Fl(1)), KW("b", I(2))>>),  \* 16  f(a=1.0, b=2)
-  Pat(<<[t |-> "list", v |-> <<"list", 1>>]>>, <<>>)  \* 17  f([1]): an argument that cannot be hashed
+  Pat(<<[t |-> "list", v |-> <<"list", 1>>]>>, <<>>),  \* 17  f([1]): an argument that cannot be hashed
+  Pat(<<Tup(S("a"), I(1)), Tup(S("b"), I(2))>>, <<>>)   \* 18  f(("a", 1), ("b", 2)): positional values that spell the keyword items of 10
 >>
 
 \* an unhashable argument makes the key construction fail with TypeError -- before anything is counted,
 \* and only if a key is needed at all (a disabled cache never builds one)
 Hashable(p) == p # 17
 
-\* beyond the table: pattern p > 17 is f(p), one more distinct int key each (caches larger than the table)
+\* beyond the table: pattern p > 18 is f(p), one more distinct int key each (caches larger than the table)
 PatOf(p) == IF p \in 1..Len(Patterns) THEN Patterns[p] ELSE Pat(<<I(p)>>, <<>>)
 
 \* calling through instance i > 0 prepends the instance to the positional arguments
